@@ -135,6 +135,18 @@ def visitor_history(text):
             exp = {nm: want[nm] for nm in names if nm in want}
             if v.hits != exp:
                 problems.append("visitor class %s (methods %s) used as step %d of %s intercepted %r, expected %r" % (key, names, step, order, v.hits, exp))
+    # a copy of a used visitor is a visitor of its own: its visit_X methods intercept for the copy, not for the original
+    import copy
+    for how in (copy.copy, copy.deepcopy):
+        A = mkcls(c_ast.NodeVisitor, ["ID", "Constant"])
+        v = A()
+        v.visit(ast)
+        exp = {nm: want[nm] for nm in ("ID", "Constant") if nm in want}
+        w = how(v)
+        w.hits = {}
+        w.visit(ast)
+        if w.hits != exp or v.hits != exp:
+            problems.append("%s of a used visitor: the copy intercepted %r and the original now has %r, expected %r for both" % (how.__name__, w.hits, v.hits, exp))
     return problems
 
 
@@ -236,7 +248,7 @@ def classify(replay):
 
 def run(ctx):
     texts = [t for t in progs.pool(ctx, scale=0.3) if len(t) < 6000]
-    ctx.rule("class-level part: 49 classes x every subset of absent node-valued fields, exhaustive, as kernel-checked obligations on regenerated observations and, to name a concrete failing class/field set, evaluated on the live classes against _c_ast.cfg read independently of _ast_gen.py (positional constructor order, attr_names, children() names/objects/order, iteration = children()); tree-level part: visitor classes related by inheritance used in several orders on one AST (interception must not depend on history); for the programs of the pool (" + progs.RULE + ") a counting NodeVisitor, a visitor overriding visit_BinaryOp/visit_Decl/visit_Compound, visitors whose visit_X methods return truthy / falsy values of several kinds (the traversal must not depend on them) and show() on the real AST vs the generic model")
+    ctx.rule("class-level part: 49 classes x every subset of absent node-valued fields, exhaustive, as kernel-checked obligations on regenerated observations and, to name a concrete failing class/field set, evaluated on the live classes against _c_ast.cfg read independently of _ast_gen.py (positional constructor order, attr_names, children() names/objects/order, iteration = children()); tree-level part: visitor classes related by inheritance used in several orders on one AST (interception must not depend on history), copy.copy / copy.deepcopy of a used visitor (the copy intercepts for itself); for the programs of the pool (" + progs.RULE + ") a counting NodeVisitor, a visitor overriding visit_BinaryOp/visit_Decl/visit_Compound, visitors whose visit_X methods return truthy / falsy values of several kinds (the traversal must not depend on them) and show() on the real AST vs the generic model")
     ncls = class_level(ctx)
     ctx.count(ncls, nontrivial_n=ncls)
     hist_texts = [t for t in texts if "1" in t and "+" in t][:40]
@@ -290,4 +302,6 @@ def replay_finding(ctx, f):
         o = observe(w["text"])[0]
         f2 = o.split("\t")
         return int(f2[1]) != int(f2[3])
+    if w["kind"] == "visitor_copy":
+        return any("of a used visitor" in pr for pr in (visitor_history(w["text"]) or []))
     return still_fails(w)
